@@ -30,6 +30,22 @@ class InfraError(Exception):
     pass
 
 
+class HarnessDied(InfraError):
+    """The harness process was killed (fatal runtime error, out of memory) while running cases."""
+    stdout = stderr = ""
+    returncode = 0
+
+
+def limit_memory():
+    """Child processes running the code under test may not take the machine down: a runaway evaluation dies with
+    'fatal error: runtime: out of memory' instead (address-space limit; not used for -race builds, which reserve
+    terabytes of address space)."""
+    import resource
+    gb = int(os.environ.get("VERIF_HARNESS_AS_GB", "24"))
+    resource.setrlimit(resource.RLIMIT_AS, (gb << 30, gb << 30))
+
+
+
 def log(*a):
     print(*a, file=sys.stderr, flush=True)
 
@@ -254,11 +270,13 @@ class Check:
         t = time.time()
         try:
             p = subprocess.run([binp] + args, input=inp, capture_output=True, text=True,
-                               timeout=timeout, env=e, cwd=self.scratch)
+                               timeout=timeout, env=e, cwd=self.scratch, preexec_fn=None if race else limit_memory)
         except subprocess.TimeoutExpired:
             raise InfraError("harness %s timed out after %ds" % (args, timeout))
         if p.returncode != 0:
-            raise InfraError("harness %s exit %d:\n%s\n...\n%s" % (args, p.returncode, p.stderr[:1500], p.stderr[-2500:]))
+            err = HarnessDied("harness %s exit %d:\n%s\n...\n%s" % (args, p.returncode, p.stderr[:1500], p.stderr[-2500:]))
+            err.stdout, err.stderr, err.returncode = p.stdout, p.stderr, p.returncode
+            raise err
         out = []
         for line in p.stdout.splitlines():
             line = line.strip()
@@ -299,6 +317,36 @@ class Check:
             outs = list(ex.map(run, chunks))
         return [v for o in outs for v in o]
 
+    def _replay_with_deaths(self, args, cases, died, race, timeout, env):
+        """The parallel harness process died.  The cases in flight were the earliest ones without a verdict: they are
+        re-run one process each (the one that kills its process gets the verdict "crash"); the rest resumes in parallel."""
+        verdicts, pending = [], list(cases)
+        rounds = 0
+        while True:
+            done = {}
+            for line in died.stdout.splitlines():
+                try:
+                    v = json.loads(line)
+                    done[v["id"]] = v
+                except Exception:
+                    pass
+            verdicts += [done[c["id"]] for c in pending if c["id"] in done]
+            pending = [c for c in pending if c["id"] not in done]
+            if not pending:
+                return verdicts
+            rounds += 1
+            if rounds > 25:
+                raise InfraError("the harness keeps dying (25 rounds); last: %s" % died.stderr[:800])
+            suspects, pending = pending[:48], pending[48:]
+            verdicts += self._chunk_with_deaths(args + ["-workers", "1"], suspects, timeout)
+            if not pending:
+                return verdicts
+            try:
+                verdicts += self.harness(args, pending, race=race, timeout=timeout, env=env)
+                return verdicts
+            except HarnessDied as again:
+                died = again
+
     def _chunk_with_deaths(self, args, cases, timeout):
         """A harness process died while running `cases` (a fatal error of the Go runtime cannot be recovered:
         stack overflow, concurrent map access).  Re-run them, restarting after every death; the case being run
@@ -307,7 +355,8 @@ class Check:
         pending, verdicts, deaths = list(cases), [], 0
         while pending:
             inp = "".join(json.dumps(c, ensure_ascii=False) + "\n" for c in pending)
-            p = subprocess.run([binp] + args, input=inp, capture_output=True, text=True, timeout=timeout, cwd=self.scratch)
+            p = subprocess.run([binp] + args, input=inp, capture_output=True, text=True, timeout=timeout, cwd=self.scratch,
+                               preexec_fn=limit_memory)
             done = []
             for line in p.stdout.splitlines():
                 try:
@@ -339,7 +388,11 @@ class Check:
         if procs:
             verdicts = self.harness_procs(["replay"] + (args or []), cases, procs, timeout=timeout)
         else:
-            verdicts = self.harness(["replay"] + (args or []), cases, race=race, timeout=timeout, env=env)
+            try:
+                verdicts = self.harness(["replay"] + (args or []), cases, race=race, timeout=timeout, env=env)
+            except HarnessDied as died:
+                verdicts = self._replay_with_deaths(["replay"] + (args or []), cases, died, race, timeout, env)
+                double_check = False
         if len(verdicts) != len(cases):
             raise InfraError("harness returned %d verdicts for %d cases" % (len(verdicts), len(cases)))
         byid = {c["id"]: c for c in cases}
